@@ -7,6 +7,9 @@ CONSTANTS
   CloseOnNilPayload = TRUE
   PooledBuffer = FALSE
   UEOFIsEnd = FALSE
+  ZeroCopyBuffer = FALSE
+  SeqReaders = {"script", "bytesbuffer", "bytesreader", "stringsreader"}
+  SeqDeepReaders = {"script", "bytesbuffer"}
   MaxSeq = 3
   MaxContent = 3
   MaxChunks = 4
